@@ -12,20 +12,20 @@ import (
 // implement trie.Queuer: its Dequeue has a different signature).
 
 type trieProj struct {
-	Size int     `json:"size"`
-	Full bool    `json:"full"`
-	Keys [][]int `json:"keys"`
-	GQ   [][]int `json:"gq"`
-	GF   []bool  `json:"gf"`
-	GV   []int   `json:"gv"`
-	CF   []bool  `json:"cf"`
-	SQ   [][]int `json:"sq"`
+	Size int       `json:"size"`
+	Full bool      `json:"full"`
+	Keys [][]int   `json:"keys"`
+	GQ   [][]int   `json:"gq"`
+	GF   []bool    `json:"gf"`
+	GV   []int     `json:"gv"`
+	CF   []bool    `json:"cf"`
+	SQ   [][]int   `json:"sq"`
 	SR   [][][]int `json:"sr"`
-	SE   []bool  `json:"se"`
-	LQ   [][]int `json:"lq"`
-	LR   [][]int `json:"lr"`
-	LE   []bool  `json:"le"`
-	PP   bool    `json:"pp"`
+	SE   []bool    `json:"se"`
+	LQ   [][]int   `json:"lq"`
+	LR   [][]int   `json:"lr"`
+	LE   []bool    `json:"le"`
+	PP   bool      `json:"pp"`
 }
 
 func zeroTrieProj() trieProj {
